@@ -1017,7 +1017,7 @@ class Component(
 
         # Required for compatibility with Django's {% extends %} tag
         # See https://github.com/django-components/django-components/pull/859
-        context.render_context.push({BLOCK_CONTEXT_KEY: context.render_context.get(BLOCK_CONTEXT_KEY, BlockContext())})
+        context.render_context.push({BLOCK_CONTEXT_KEY: BlockContext()})
 
         # By adding the current input to the stack, we temporarily allow users
         # to access the provided context, slots, etc. Also required so users can
@@ -1328,6 +1328,9 @@ class Component(
                 nodelist=used_nodelist,
                 escaped=True,
             )
+            # Keep the link to the template in which the fill was written (see `resolve_fills()`)
+            if hasattr(content, "_djc_render_ctx_layer"):
+                slot._djc_render_ctx_layer = content._djc_render_ctx_layer  # type: ignore[attr-defined]
 
             return slot
 
